@@ -365,6 +365,18 @@ def dt_unit_cases(rng, rounds):
     return out
 
 
+def real_exp_unit_cases(rng, rounds):
+    """spec/CimWire.tla RealLexForms "exp1" (one significant digit and an
+    exponent) for real32 / real64 in every valued element kind / shape"""
+    out = []
+    for rnd in range(rounds):
+        for typ in ("real32", "real64"):
+            for kind, sh, where in DT_POSITIONS:
+                els = H.unit_tree(kind, typ, sh, ["exp1"], where)
+                out.append(tree_case(rng, els, "unit-real-exp", exotic=False))
+    return out
+
+
 def tree_case(rng, els, src, exotic=None):
     return {"gen": "obj", "src": src, "spec": {
         "els": els, "mode": rng.choice(["entity", "cdata"]),
@@ -707,6 +719,7 @@ def run(ctx):
         c["dtclass"] = sorted({x for x in dcls if x != "none"})
         cases.append(c)
     cases += dt_unit_cases(rng, 1 if quick else 4)
+    cases += real_exp_unit_cases(rng, 1 if quick else 4)
 
     # -- 3. real code + TLC verdicts --------------------------------------------
     events, infos, kept = [], [], []
